@@ -1146,7 +1146,7 @@ func c05Search() {
 	sum := newSummary()
 	distinct := hashSet{}
 	thorough := *flagTier == "thorough"
-	orders := 4
+	orders := 3
 	if thorough {
 		// every faulted input under 200 seeded translation orders (map-range
 		// permutations and the decisions about keys created during a range)
@@ -1186,7 +1186,7 @@ func c05Search() {
 				break
 			}
 			// Quick tier: every site of small modules, a stride of the big ones.
-			if !thorough && len(sites) > 3000 && i%(len(sites)/3000+1) != 0 {
+			if !thorough && len(sites) > 1000 && i%(len(sites)/1000+1) != 0 {
 				sum.Skipped["sites not sampled in the quick tier"]++
 				continue
 			}
